@@ -351,7 +351,7 @@ bool exec_line(char *line, int lineno, int thr) {
 		bus_session_begin();
 		int r = bidib_start_pointer(cb_read, cb_write, cfg, fl);
 		session_count++;
-		rx_wait_idle(400);
+		if (bidib_running) rx_wait_idle(400);
 		HEAD(); fprintf(vout, ",\"ret\":%d,\"running\":%d", r, bidib_running ? 1 : 0);
 		out_thr(); out_wire(); TAIL();
 	} else if (strcmp(op, "startnull") == 0) {
